@@ -36,22 +36,30 @@ def subst(shape_, old, new):
     return shape_
 
 
-def c10_payload(ci, hi, n, eof):
+LEADS = ['p', '', '\\w', 'p ', '\\w ']
+TERMS = ['\n', '\r', '\r\n']
+
+
+def c10_payload(ci, hi, n, eof, lead=0, term=0):
     pay = SX.fresh(n)
     for ch in pay:
         SX.assume(SX.Not(SX.ch_among(ch, '\n\r')))
     payload = HOSTILE[hi] + pay
     pre, post = CTXS[ci]
+    ld = LEADS[lead]
     if eof:
         if ci != 0:
             return ('skip',)
-        src = 'p%' + payload
-        benign = 'p%' + 'x' * len(payload)
+        src = ld + '%' + payload
+        benign = ld + '%' + 'x' * len(payload)
     else:
-        src = pre + 'p%' + payload + '\nr' + post
-        benign = pre + 'p%' + 'x' * len(payload) + '\nr' + post
+        src = pre + ld + '%' + payload + TERMS[term] + 'r' + post
+        benign = pre + ld + '%' + 'x' * len(payload) + TERMS[term] + 'r' + post
     det = lambda: {'source': src, 'benign': benign}
-    ref = TexSoup(benign)
+    try:
+        ref = TexSoup(benign)
+    except Exception as e:
+        return ('context-invalid', type(e).__name__)
     want = subst(doc_shape(ref), '%' + 'x' * len(payload), '%' + payload)
     try:
         soup = TexSoup(src)
@@ -65,7 +73,24 @@ def c10_payload(ci, hi, n, eof):
     nn = len([x for x in soup.descendants if isinstance(x, TexNode)])
     nr = len([x for x in ref.descendants if isinstance(x, TexNode)])
     SX.check(nn == nr, 'C10:node-count', lambda: dict(det(), nodes=nn, expected=nr))
+    # the comment leaf itself: one text leaf that is exactly % + payload (it ends where the line ends)
+    leaves = []
+    collect_text(soup.expr, leaves)
+    SX.check(len([t for t in leaves if t == '%' + payload]) >= 1, 'C10:comment-leaf', lambda: dict(det(), leaves=leaves))
     return ('ok', str(soup))
+
+
+def collect_text(e, out):
+    for a in e.args:
+        if isinstance(a, TexExpr):
+            collect_text(a, out)
+    for c in e._contents:
+        if isinstance(c, TexText):
+            out.append(SX.raw(str(c)))
+        elif isinstance(c, TexExpr):
+            collect_text(c, out)
+        else:
+            out.append(SX.raw(str(c)))
 
 
 def c10_backslashes(ci, k, n):
